@@ -123,6 +123,7 @@ func (c *compressionPool) getDecompressor(reader io.Reader) (Decompressor, error
 	if !ok {
 		return nil, errors.New("expected Decompressor, got incorrect type from pool")
 	}
+	verifCodecGet(decompressor)
 	return decompressor, decompressor.Reset(reader)
 }
 
@@ -137,6 +138,7 @@ func (c *compressionPool) putDecompressor(decompressor Decompressor) error {
 	// also reset the decompressor when it's pulled out of the pool, we can
 	// ignore errors here.
 	_ = decompressor.Reset(strings.NewReader(""))
+	verifCodecPut(decompressor)
 	c.decompressors.Put(decompressor)
 	return nil
 }
@@ -146,6 +148,7 @@ func (c *compressionPool) getCompressor(writer io.Writer) (Compressor, error) {
 	if !ok {
 		return nil, errors.New("expected Compressor, got incorrect type from pool")
 	}
+	verifCodecGet(compressor)
 	compressor.Reset(writer)
 	return compressor, nil
 }
@@ -155,6 +158,7 @@ func (c *compressionPool) putCompressor(compressor Compressor) error {
 		return err
 	}
 	compressor.Reset(io.Discard) // don't keep references
+	verifCodecPut(compressor)
 	c.compressors.Put(compressor)
 	return nil
 }
